@@ -35,6 +35,32 @@ fn val(tok: &str) -> u64 {
     }
 }
 fn reparse<T: Deserial>(bytes: &[u8]) -> Option<T> { T::deserial(&mut Cursor::new(bytes)).ok() }
+/// A token as a field element (the last tokens are "negative": r - k).
+fn scalar_of(tok: &str) -> Fr {
+    use concordium_base::curve_arithmetic::Field;
+    match tok {
+        "r-1" | "r-5" => {
+            let mut z = Fr::zero();
+            z.sub_assign(&G::scalar_from_u64(if tok == "r-1" { 1 } else { 5 }));
+            z
+        }
+        t => G::scalar_from_u64(val(t)),
+    }
+}
+/// A range proof is A, S, T1, T2 (48 bytes each), tx, tx_tilde, e_tilde (32 each), then the inner-product argument: u32 count of (L, R) pairs of 96 bytes, a, b.
+fn surplus(p: &range_proof::RangeProof<G>) -> Option<range_proof::RangeProof<G>> {
+    let mut b = to_bytes(p);
+    let at = 4 * 48 + 3 * 32;
+    let n = u32::from_be_bytes([b[at], b[at + 1], b[at + 2], b[at + 3]]) as usize;
+    if b.len() != at + 4 + 96 * n + 64 || n == 0 {
+        return None;
+    }
+    b[at..at + 4].copy_from_slice(&((n + 1) as u32).to_be_bytes());
+    let extra = b[at + 4..at + 4 + 96].to_vec();
+    let end = at + 4 + 96 * n;
+    b.splice(end..end, extra);
+    reparse(&b)
+}
 fn flip<T: Deserial + concordium_base::common::Serial>(p: &T) -> Option<T> {
     let mut b = to_bytes(p);
     let k = b.len() - 5;
@@ -86,6 +112,10 @@ pub fn main(args: &[String]) -> i32 {
                                 Some(q) => p = q,
                                 None => return Ok(()),
                             },
+                            "proof_surplus" => match surplus(&p) {
+                                Some(q) => p = q,
+                                None => return fail(what("harness: cannot append a pair to the inner-product argument"), J::Null, J::Null),
+                            },
                             _ => {}
                         }
                         range_proof::verify_efficient(version, &mut ro(tctx), n2, &cmms, &p, g2, k2).is_ok()
@@ -109,6 +139,10 @@ pub fn main(args: &[String]) -> i32 {
                                 Some(q) => p = q,
                                 None => return Ok(()),
                             },
+                            "proof_surplus" => match surplus(&p) {
+                                Some(q) => p = q,
+                                None => return fail(what("harness: cannot append a pair to the inner-product argument"), J::Null, J::Null),
+                            },
                             _ => {}
                         }
                         range_proof::verify_less_than_or_equal(&mut ro(tctx), n, &ca, &cb, &p, &gens, &key)
@@ -116,10 +150,12 @@ pub fn main(args: &[String]) -> i32 {
                 }
             }
             "interval" => {
-                let (x, a, b) = (num(&row["v"]), num(&row["a"]), num(&row["b"]));
+                let tok = |i: &J| toks[i.as_u64().unwrap() as usize - 1].clone();
+                let (a, b) = (num(&row["a"]), num(&row["b"]));
+                let xs = scalar_of(&tok(&row["v"]));
                 let r = Randomness::<G>::generate(&mut rng);
-                let mut c = key.hide(&Value::<G>::new(G::scalar_from_u64(x)), &r);
-                let proof = range_proof::prove_in_range(version, &mut ro("c11"), &mut rng, &gens, &key, G::scalar_from_u64(x), G::scalar_from_u64(a), G::scalar_from_u64(b), &r);
+                let mut c = key.hide(&Value::<G>::new(xs), &r);
+                let proof = range_proof::prove_in_range(version, &mut ro("c11"), &mut rng, &gens, &key, xs, G::scalar_from_u64(a), G::scalar_from_u64(b), &r);
                 match proof {
                     None => false,
                     Some(mut p) => {
